@@ -433,3 +433,57 @@ func closureParamLeaves(p *ssa.Parameter, depth int) []leafVal {
 func leavesKeepingChain(v ssa.Value, chain []*ssa.Call, depth int) []leafVal {
 	return valueLeaves(v, chain, depth)
 }
+
+
+// closureCallSite: function literal lit is handed (as argument of the static call outer) to an in-package helper, which calls
+// it through the corresponding func-typed parameter at inner.
+type closureCallSite struct {
+	inner, outer *ssa.Call
+}
+
+func closureCallSites(lit *ssa.Function) []closureCallSite {
+	if lit == nil || lit.Parent() == nil {
+		return nil
+	}
+	var out []closureCallSite
+	instrs(lit.Parent(), func(_ *ssa.BasicBlock, _ int, in ssa.Instruction) {
+		var fv ssa.Value
+		var uses []ssa.Instruction
+		if mc, ok := in.(*ssa.MakeClosure); ok && mc.Fn == ssa.Value(lit) && mc.Referrers() != nil {
+			fv = mc
+			uses = *mc.Referrers()
+		} else if call, ok := in.(*ssa.Call); ok {
+			for _, a := range call.Call.Args {
+				if a == ssa.Value(lit) {
+					fv = lit
+					uses = []ssa.Instruction{call}
+				}
+			}
+		}
+		if fv == nil {
+			return
+		}
+		for _, ref := range uses {
+			call, ok := ref.(*ssa.Call)
+			if !ok {
+				continue
+			}
+			h := staticCallee(&call.Call)
+			if h == nil || h.Blocks == nil {
+				continue
+			}
+			for ai, a := range call.Call.Args {
+				if a != fv || ai >= len(h.Params) {
+					continue
+				}
+				hp := h.Params[ai]
+				instrs(h, func(_ *ssa.BasicBlock, _ int, in2 ssa.Instruction) {
+					if c2, ok := in2.(*ssa.Call); ok && c2.Call.Value == ssa.Value(hp) {
+						out = append(out, closureCallSite{c2, call})
+					}
+				})
+			}
+		}
+	})
+	return out
+}
